@@ -40,6 +40,7 @@ def dispatch (prop : String) (line : String) : Verdict :=
     | some "mlw" => MlwE.runMlw prop f obsS
     | some "spy" => MlwE.runSpy prop f obsS
     | some "fmt" => FmtE.runFmt prop f obsS
+    | some "fmtn" => FmtE.runFmt prop f obsS
     | some "std" => FmtE.runStd prop f obsS
     | some "val" => FmtE.runVal prop f obsS
     | some "raw" => FmtE.runRaw prop f obsS
@@ -50,8 +51,10 @@ def dispatch (prop : String) (line : String) : Verdict :=
     | some "qlatency" => QueueE.runLatency prop f obsS
     | some "qdroprace" => QueueE.runDropRace prop f obsS
     | some "qemitdrop" => QueueE.runEmitDrop prop f obsS
+    | some "qdeep" => QueueE.runDeep prop f obsS
     | some "sockbig" => SockE.runBig prop f obsS
     | some "hdl" => FmtE.runHdl prop f obsS
+    | some "cfl" => FmtE.runCfl prop f obsS
     | some "sock" => SockE.runSock prop f obsS
     | some "sockmt" => SockE.runMt prop f obsS
     | some "socklock" => SockE.runLock prop f obsS
